@@ -2153,9 +2153,7 @@ class CParser:
     def _parse_unified_string_literal(self) -> c_ast.Node:
         tok = self._expect("STRING_LITERAL")
         node = c_ast.Constant("string", tok.value, self._tok_coord(tok))
-        while self._peek_type() == "STRING_LITERAL":
-            tok2 = self._advance()
-            node.value = node.value[:-1] + tok2.value[1:]
+        self._append_adjacent_string_literals(node)
         return node
 
     # BNF: unified_wstring_literal : WSTRING_LITERAL+
@@ -2164,12 +2162,22 @@ class CParser:
         if tok.type not in _WSTR_LITERAL:
             self._parse_error("Invalid string literal", self._tok_coord(tok))
         node = c_ast.Constant("string", tok.value, self._tok_coord(tok))
-        while self._peek_type() in _WSTR_LITERAL:
+        self._append_adjacent_string_literals(node)
+        return node
+
+    def _append_adjacent_string_literals(self, node: c_ast.Constant) -> None:
+        """Adjacent string literals are one literal, whether or not they have
+        an encoding prefix. If any of them has one, so has the whole literal
+        (C99 6.4.5p4, C11 6.4.5p5): "a" L"b" is L"ab".
+        """
+        while self._peek_type() == "STRING_LITERAL" or self._peek_type() in _WSTR_LITERAL:
             tok2 = self._advance()
             # drop the closing quote of what we have and the prefix (L, u, U
             # or the two-character u8) and opening quote of the next literal
-            node.value = node.value.rstrip()[:-1] + tok2.value[tok2.value.index('"') + 1 :]
-        return node
+            prefix, _, rest = tok2.value.partition('"')
+            if prefix and node.value.startswith('"'):
+                node.value = prefix + node.value
+            node.value = node.value.rstrip()[:-1] + rest
 
     # ------------------------------------------------------------------
     # Initializers
